@@ -135,6 +135,7 @@ State0(files, lf) ==
       rt |-> "none", rtFlag |-> FALSE, \* runtime automaton, ManagedThread flag
       ag |-> <<>>,                     \* agent name -> [kind, st, subs, flag, err]
       regOpen |-> TRUE, cancelOnce |-> FALSE, initDone |-> FALSE,
+      rel |-> 0,                       \* generation of the runtime whose identity string (User-Agent) is on record; 0: none
       lateEv |-> FALSE,                \* an exit notification was handled after the reset that had given up waiting for it
       renderer |-> "none", rendInv |-> 0, rendSrc |-> 0, rendReason |-> "", firstFatal |-> "none",
       ig |-> InitGates, vg |-> InvGates,
@@ -319,9 +320,9 @@ InvokeReturnEn(s) == s.pcV.pc \in {"ok", "fail"}
 InvokeReturnDo(s) ==
     LET s1 == [s EXCEPT !.hm = "free", !.pcV = [pc |-> "off", k |-> 0, src |-> 0, err |-> ""]]
         k == s.pcV.src
-    IN IF s.pcV.pc = "ok" THEN [s1 EXCEPT !.iv[k].i = "sendok"]
-       ELSE IF s.pcV.err = "reset" THEN [s1 EXCEPT !.iv[k].i = "off"]
-       ELSE [s1 EXCEPT !.iv[k].i = "deferr", !.iv[k].derr = DefaultErr(s)]
+    IN IF s.pcV.pc = "ok" THEN [s1 EXCEPT !.iv[k].i = "sendok", !.iv[k].msg = "ok", !.iv[k].rel = s.rel]
+       ELSE IF s.pcV.err = "reset" THEN [s1 EXCEPT !.iv[k].i = "off", !.iv[k].msg = "rst", !.iv[k].rel = s.rel]
+       ELSE [s1 EXCEPT !.iv[k].i = "deferr", !.iv[k].derr = DefaultErr(s), !.iv[k].msg = "fail", !.iv[k].rel = s.rel]
 
 ----------------------------------------------------------------------------
 (* Server.Invoke, one record per invocation k (rapidcore/server.go:627-739): *)
@@ -338,6 +339,7 @@ NewInv(c, pl) == [c |-> c, pl |-> pl, id |-> 0, t0 |-> 0, m |-> "start", r |-> "
                   out |-> "", relRes |-> "", body |-> NoBody, derr |-> NoBody,
                   got |-> FALSE,      \* a body (possibly empty) has been written to this caller's reply stream
                   once |-> "free",    \* resetOnce of this Server.Invoke call: "free" | "busy" (a reset is running) | "done"
+                  msg |-> "", rel |-> 0,   \* the result rapid handed to the server ("ok" | "fail" | "rst") and the runtime identity it carries
                   lg |-> FALSE]       \* trace validation: the event payload is large (its delivery to the runtime takes time)
 
 WithInv(s, k, rec) == [s EXCEPT !.iv = [x \in DOMAIN s.iv \cup {k} |-> IF x = k THEN rec ELSE s.iv[x]]]
@@ -521,7 +523,7 @@ ResetFinishDo(s, x) ==
 ResetClearEn(s, x) == s.rs[x].pc = "r3" /\ Free(s, "rapid.reinitialize")
 ResetClearDo(s, x) ==
     [s EXCEPT !.hm = IF "clear-outside-mutex" \in AsFound THEN @ ELSE "free",
-              !.firstFatal = "none", !.renderer = "none", !.initDone = FALSE,
+              !.firstFatal = "none", !.renderer = "none", !.initDone = FALSE, !.rel = 0,
               !.rt = "none", !.rtFlag = FALSE, !.ag = <<>>, !.regOpen = TRUE, !.cancelOnce = FALSE,
               !.ig = ClearAll(@), !.vg = ClearAll(@), !.rs[x].pc = "r4",
               \* handlers parked on objects of the old generation are never woken again ("orphan"), unless their
@@ -715,6 +717,7 @@ NewCall(who, api) ==
     [who |-> who, api |-> api, st |-> "issued", det |-> FALSE, res |-> NoRes,
      id |-> 0, body |-> NoBody, big |-> FALSE, et |-> "", name |-> "", events |-> {}, idc |-> "ok",
      agen |-> 0, which |-> "", feat |-> FALSE,
+     pg |-> 0,           \* trace validation: generation of the calling runtime process (0: not recorded)
      adm |-> FALSE,      \* a slow /response or /error: the headers were handled, the handler is reading the body
      mode |-> "",        \* /response: the response-mode header ("" | "streaming" | "bad" = any other value)
      slow |-> FALSE,     \* the request's body is still on its way (the handler is reading it): no effect yet
@@ -960,9 +963,14 @@ RouteEffect(s, c) ==
 BodyDoneEn(s, c) == c \in DOMAIN s.calls /\ s.calls[c].st = "issued" /\ s.calls[c].slow
 BodyDoneDo(s, c) == [s EXCEPT !.calls[c].slow = FALSE]
 
+\* every request to the Runtime API router passes the runtime-release middleware first: the identity string of the first
+\* one is kept until reinitialize forgets it (extension, credentials, logs and telemetry routes are other routers)
+NoteRelease(s, c) ==
+    IF s.calls[c].who = "rt" /\ s.calls[c].pg # 0 /\ s.calls[c].api # "creds" /\ s.rel = 0 THEN [s EXCEPT !.rel = s.calls[c].pg] ELSE s
+
 HeadersEn(s, c) ==
     c \in DOMAIN s.calls /\ s.calls[c].st = "issued" /\ s.calls[c].slow /\ ~s.calls[c].adm /\ s.calls[c].api \in {"response", "error"}
-HeadersDo(s, c) == RtPostHeaders(s, c)
+HeadersDo(s, c) == RtPostHeaders(NoteRelease(s, c), c)
 
 EffectEn(s, c) ==
     /\ c \in DOMAIN s.calls /\ s.calls[c].st = "issued" /\ ~s.calls[c].slow
@@ -970,8 +978,9 @@ EffectEn(s, c) ==
     /\ (s.calls[c].api = "error" => Free(s, "server.sendErrorResponse"))
     /\ ((s.calls[c].api = "register" /\ ~(s.calls[c].name \in Agents(s) /\ s.ag[s.calls[c].name].kind = "ext"))
             => Free(s, "core.newInternalAgent"))
-EffectDo(s, c) ==
-    LET call == s.calls[c] IN
+EffectDo(s0, c) ==
+    LET s == NoteRelease(s0, c)
+        call == s.calls[c] IN
     CASE call.api = "next" /\ call.who = "rt" -> RtNextEffect(s, c)
       [] call.api = "next" -> AgNextEffect(s, c)
       [] call.api \in {"response", "error"} -> RtPostEffect(s, c)
